@@ -11,7 +11,8 @@ Section Ref.
   Definition rnr (A : rows) : nat := length A.
   Definition rnc (A : rows) : nat := length (hd [] A).
 
-  (** the shape a request [(r, c)] denotes for [sz] elements ([-1] = "infer this dimension") *)
+  (** the shape a request [(r, c)] denotes for [sz] elements ([-1] = "infer this dimension"; a dimension of 0 can
+      only be asked for as 0 x 0, the shape of the matrix without elements) *)
   Definition want_shape (sz : nat) (r c : Z) : option (nat * nat) :=
     if ((0 <? r) && (0 <? c))%Z then
       if (r * c =? Z.of_nat sz)%Z then Some (Z.to_nat r, Z.to_nat c) else None
@@ -19,6 +20,8 @@ Section Ref.
       if sz mod Z.to_nat c =? 0 then Some (sz / Z.to_nat c, Z.to_nat c) else None
     else if ((c =? -1) && (0 <? r))%Z then
       if sz mod Z.to_nat r =? 0 then Some (Z.to_nat r, sz / Z.to_nat r) else None
+    else if ((r =? 0) && (c =? 0))%Z then
+      if sz =? 0 then Some (0, 0) else None
     else None.
 
   (** cut a flat list into [r] rows of [c] *)
@@ -68,6 +71,27 @@ Section Ref.
   (** the rows a concrete state denotes, and the invariant of a well-formed state *)
   Definition rows_of_mat (m : mat T) : rows := unflatten (data m) (nrows m) (ncols m).
   Definition Inv (m : mat T) : Prop := nrows m * ncols m = length (data m) /\ 0 < nrows m /\ 0 < ncols m.
+  (** the struct invariant alone (every shape, including the empty matrix 0 x 0 and the degenerate 0 x c / r x 0 that
+      [reshape_mut] with an inferred dimension produces on empty data) *)
+  Definition WF (m : mat T) : Prop := nrows m * ncols m = length (data m).
+  (** the empty matrix of [Matrix::empty()] *)
+  Definition is_empty_mat (m : mat T) : Prop := nrows m = 0 /\ ncols m = 0 /\ data m = [].
+
+  (** what every structural operation does on the empty matrix 0 x 0 (a DESCRIPTION of the code, proved of the model
+      in Proofs/C15Empty.v and compared with the implementation by the correspondence; not a textbook definition:
+      transposing the empty matrix panics with a division by zero in [utils::is_matrix], and a reshape with an
+      inferred dimension produces the degenerate shapes 0 x c / r x 0 over no elements) *)
+  Definition empty_step (o : op (T:=T)) : option (mat T * list T) :=
+    let E := mkMat 0 0 [] in
+    match o with
+    | OReshape r c => if ((r =? 0) && (c =? 0))%Z then Some (E, []) else None
+    | OReshapeMut r c | OToVecReshape r c =>
+        option_map (fun p : nat * nat => (mkMat (fst p) (snd p) [], [])) (want_shape 0 r c)
+    | OHcat od r c | OVcat od r c =>
+        match od with [] => if ((r =? 0) && (c =? 0))%Z then Some (E, []) else None | _ => None end
+    | OHrepeat _ | OVrepeat _ | ODiag => Some (E, [])
+    | _ => None
+    end.
 
   (** an [r] x [c] rectangle *)
   Definition rect (A : rows) (r c : nat) : Prop := length A = r /\ Forall (fun row => length row = c) A.
